@@ -637,7 +637,9 @@ def check_ble_advertisement(res: Result, counter: list[int]) -> None:
     uuids = [[], ["0xFE9F"], ["0xfe9f", "6E400001-B5A3-F393-E0A9-E50E24DCCA9E"]]
     datas = [[], [("0xFE9F", b"\x01\x02", False)], [("0x004C", b"\x10", False), ("0xABCD", b"", False)], [("0xFE9F", b"\x05\x06", True)],
              # the old encoding (legacy_data) with an empty first payload followed by non-empty ones, and a non-empty first one
-             [("0x004C", b"", True), ("0xABCD", b"\x07\x08", True), ("0x1234", b"\x09", True)], [("0x004C", b"\x01", True), ("0xABCD", b"", True)]]
+             [("0x004C", b"", True), ("0xABCD", b"\x07\x08", True), ("0x1234", b"\x09", True)], [("0x004C", b"\x01", True), ("0xABCD", b"", True)],
+             # the current encoding with an empty first payload (a company id and nothing else) - decided per list, not per advertisement
+             [("0x004C", b"", False), ("0xABCD", b"\x01", False)]]
     for nm in names:
         for us in uuids:
             for sd in datas:
